@@ -64,11 +64,17 @@ HasData(m) == \A v \in UsedVars(m) : m.fed[v] # <<>>
 D0(m) == DomBegin(m.fed, UsedVars(m))
 D1(m) == DomEnd(m.fed, UsedVars(m))
 \* (the first d1 - d0 + 1 cells of the result are the domain; the rest is the settling extension)
-Expected(m, p) == LET d0 == D0(m) d1 == D1(m) + Settle(p) n == d1 - d0 + 1 IN
-                  SigC(p, CellsOf(m.fed, UsedVars(m), d0, d1), n, m.cfg.S, m.cfg.M)
-AnyUndef(m, p) == LET d0 == D0(m) d1 == D1(m) + Settle(p) n == d1 - d0 + 1
-                      C == CellsOf(m.fed, UsedVars(m), d0, d1) IN
-                  \E q \in SubF(p) : HasUndef(SigC(q, C, n, m.cfg.S, m.cfg.M))
+\* (signals may begin at different times: every sub-formula is evaluated on its own domain, Dense!SigD)
+\* (when the signals begin together SigD is SigC on the common domain - theorem DenseOffMC!SigDIsSigC - and SigC is cheaper)
+Expected(m, p) == IF SameStart(m.fed, UsedVars(m))
+                  THEN LET d0 == D0(m) d1 == D1(m) + Settle(p) n == d1 - d0 + 1 IN
+                       SigC(p, CellsOf(m.fed, UsedVars(m), d0, d1), n, m.cfg.S, m.cfg.M)
+                  ELSE SigOnDomain(p, m.fed, UsedVars(m), D1(m) + Settle(p), m.cfg.S, m.cfg.M)
+AnyUndef(m, p) == IF SameStart(m.fed, UsedVars(m))
+                  THEN LET d0 == D0(m) d1 == D1(m) + Settle(p) n == d1 - d0 + 1
+                           C == CellsOf(m.fed, UsedVars(m), d0, d1) IN
+                       \E q \in SubF(p) : HasUndef(SigC(q, C, n, m.cfg.S, m.cfg.M))
+                  ELSE UndefSomewhere(p, m.fed, UsedVars(m), D1(m) + Settle(p), m.cfg.S, m.cfg.M)
 
 \* first cell (1-based) at which the step function `out` (doubled times) differs from `ex`, shifted by h cells,
 \* looking only at instants between lo2 and hi2 (doubled times); 0 if none
@@ -160,7 +166,7 @@ ApplyEvaluate(m, e, step) ==
               ELSE Ok
         f2 == IF f0 = Ok /\ ~e.same THEN F("evaluate.argsMutated", step, "unchanged", "changed") ELSE Ok
         \* C07 (sign) on the implementation's own numbers against the Boolean dense-time semantics
-        f3 == IF f0 = Ok /\ e.ret # <<>> /\ DenseBool(m.phi) /\ Monotone(e.ret)
+        f3 == IF f0 = Ok /\ e.ret # <<>> /\ DenseBool(m.phi) /\ Monotone(e.ret) /\ SameStart(m1.fed, UsedVars(m1))
                     /\ ~SatUndef(m.phi, CellsOf(m1.fed, UsedVars(m1), d0, d1 + Settle(m.phi)), d1 + Settle(m.phi) - d0 + 1, m.cfg.S)
               THEN LET nn == d1 + Settle(m.phi) - d0 + 1
                        st == SatC(m.phi, CellsOf(m1.fed, UsedVars(m1), d0, d1 + Settle(m.phi)), nn, m.cfg.S)
@@ -202,6 +208,7 @@ OnlineValueFail(m, step) ==
 \* specification is satisfied there and a negative one that it is violated (Dense!SatC, not via SigC)
 OnlineSignFail(m, step) ==
   IF m.phase # "online" \/ m.emitted = <<>> \/ ~HasData(m) \/ m.dead \/ m.inst # m.phi \/ ~DenseBool(m.phi) \/ ~Monotone(m.emitted) THEN Ok
+  ELSE IF ~SameStart(m.fed, UsedVars(m)) THEN Ok
   ELSE
     LET d0 == D0(m) dS == D1(m) + Settle(m.phi) nn == dS - d0 + 1
         C == CellsOf(m.fed, UsedVars(m), d0, dS) IN
